@@ -96,7 +96,7 @@ use libc::{self, c_int, timeval};
 use nix::errno::Errno;
 use nix::fcntl;
 use nix::sys::select::{self, FdSet};
-use nix::sys::signal::{self, SigHandler, Signal};
+use nix::sys::signal::{self, SaFlags, SigAction, SigHandler, SigSet, Signal};
 use nix::sys::time::TimeVal;
 use nix::sys::wait::{self, WaitStatus};
 use nix::unistd::{self, ForkResult, Pid};
@@ -1141,7 +1141,19 @@ fn try_read(fd: RawFd, buf: &mut [u8]) -> nix::Result<Option<usize>> {
     // We have to set an alarm() in case our read() gets stuck.
     #[cfg(feature = "verif")]
     crate::verif::delay("before_token_read");
-    let oldh = unsafe { signal::signal(Signal::SIGALRM, SigHandler::Handler(timeout_handler)) }?;
+    // The handler must be installed without SA_RESTART (which signal() implies
+    // on glibc), or the alarm would never interrupt a read() that blocks
+    // because another process took the token first.
+    let oldh = unsafe {
+        signal::sigaction(
+            Signal::SIGALRM,
+            &SigAction::new(
+                SigHandler::Handler(timeout_handler),
+                SaFlags::empty(),
+                SigSet::empty(),
+            ),
+        )
+    }?;
     const INTERVAL_VALUE: IntervalTimerValue = IntervalTimerValue {
         interval: Duration::from_millis(10),
         value: Duration::from_millis(10),
@@ -1153,7 +1165,7 @@ fn try_read(fd: RawFd, buf: &mut [u8]) -> nix::Result<Option<usize>> {
         Err(e) => Err(e),
     };
     helpers::set_interval_timer(IntervalTimer::Real, &IntervalTimerValue::default())?;
-    unsafe { signal::signal(Signal::SIGALRM, oldh) }?;
+    unsafe { signal::sigaction(Signal::SIGALRM, &oldh) }?;
     result
 }
 
